@@ -255,23 +255,30 @@ Definition explain_ll_with (pinned : quirks) (c : ll_case) :=
 (** * group hs: HTTPServer runtime built from YAML, real net/http accept loop, keep-alive clients *)
 
 Inductive hop := HDial | HClose (c : N) | HReload (n : Z)
-  | HRestart      (* a reload that needs a restart: closeServer + startServer *)
+  | HRestart      (* a reload that needs a restart, after the harness ended its connections *)
   | HFail         (* Serve fails: state failed *)
-  | HRecover.     (* failed-check: startServer again *)
+  | HRecover      (* failed-check: startServer again *)
+  | HDialPark     (* a client whose request stays in flight inside the handler *)
+  | HUnpark (c : N) (* its handler returns; the client reads the response and closes *)
+  | HRestartIF.   (* a reload that needs a restart while connections (idle, in flight) are open *)
 
 Record hobs := {
   h_decoded : Z; h_served : list N; h_waiting : Z; h_cur : Z; h_real : Z; h_wq : list Z; h_shr : Z;
-  h_skip : bool; h_running : bool
+  h_skip : bool; h_running : bool;
+  h_old : Z;          (* connections of a REPLACED listener that are still open *)
+  h_blocked : bool    (* HRestartIF: the reload did not return while requests were in flight *)
 }.
 
 Record hs_case := {
-  hc_init : Z; hc_busy : bool; hc_M : Z; hc_ops : list hop; hc_obs : list hobs; hc_desync : bool; hc_bad : bool
+  hc_init : Z; hc_busy : bool; hc_idle_ok : bool; hc_M : Z; hc_ops : list hop; hc_obs : list hobs;
+  hc_desync : bool; hc_bad : bool
 }.
 
 Definition hobs_eqb (a b : hobs) : bool :=
   (h_decoded a =? h_decoded b) && Nlist_eqb (h_served a) (h_served b) && (h_waiting a =? h_waiting b)
   && (h_cur a =? h_cur b) && (h_real a =? h_real b) && Zlist_eqb (h_wq a) (h_wq b) && (h_shr a =? h_shr b)
-  && Bool.eqb (h_skip a) (h_skip b) && Bool.eqb (h_running a) (h_running b).
+  && Bool.eqb (h_skip a) (h_skip b) && Bool.eqb (h_running a) (h_running b)
+  && (h_old a =? h_old b) && Bool.eqb (h_blocked a) (h_blocked b).
 
 (** the single accept loop of net/http: whenever it holds a permit the oldest waiting client
     is accepted and served, and the loop asks for the next permit *)
@@ -290,40 +297,55 @@ Definition hs_fresh (q : quirks) (M cap : Z) : lstate := lstep q (linit q M cap)
 Definition hs_close_all (q : quirks) (s : lstate) : lstate :=
   fold_left (fun s c => lstep q s (LClose c)) (opened s) s.
 
-Fixpoint hs_model (q : quirks) (M : Z) (run : bool) (s : lstate) (backlog : list N) (next : N) (cap : Z)
-         (ops : list hop) : list hobs :=
+(** requests in flight: open connections whose request was parked in the handler *)
+Definition hs_inflight (parks : list N) (s : lstate) : list N := filter (fun c => mem_N c parks) (opened s).
+
+(** [parks]: ids of the clients dialed with a parked request. The runtime as it is: a listener is
+    replaced only after Shutdown has drained it - idle connections are closed by it, and while a
+    request is in flight the reload does not return (30 s grace; the harness lets the requests
+    finish once it has seen the reload blocked): no connection of the replaced listener is left. *)
+Fixpoint hs_model (q : quirks) (M : Z) (idle_ok : bool) (run : bool) (s : lstate) (backlog parks : list N)
+         (next : N) (cap : Z) (ops : list hop) : list hobs :=
   match ops with
   | [] => []
   | o :: t =>
+      let infl := hs_inflight parks s in
       (* harness protocol: operations that are impossible in the current state are not issued; nor
          is a reload rejected by validation (n < 1) or one that would shrink a running listener's
          capacity by exactly 1; the listener is only replaced while nobody waits *)
       let skip :=
         match o with
-        | HDial | HClose _ => negb run
+        | HDial => negb run || negb idle_ok
+        | HDialPark | HClose _ => negb run
         | HReload n => (n <? 1) || (run && (Z.min n (size (ws s)) =? real s - 1))
-        | HRestart | HFail => negb run || negb (is_nil backlog)
+        | HRestart | HFail => negb run || negb (is_nil backlog) || negb (is_nil infl)
+        | HRestartIF => negb run || negb (is_nil backlog)
         | HRecover => run
+        | HUnpark _ => false
         end in
-      let '(run1, s1, backlog1, next1, cap1) :=
-        if skip then (run, s, backlog, next, cap) else
+      let '(run1, s1, backlog1, parks1, next1, cap1) :=
+        if skip then (run, s, backlog, parks, next, cap) else
         match o with
-        | HDial => (run, s, backlog ++ [next], (next + 1)%N, cap)
-        | HClose c => (run, if mem_N c (opened s) then lstep q s (LClose c) else s, backlog, next, cap)
-        | HReload n => (run, if run then lrun q s [LSetMax n; LRun 0] else s, backlog, next, n)
-        | HRestart => (true, hs_fresh q M cap, [], next, cap)
-        | HFail => (false, hs_close_all q s, [], next, cap)
-        | HRecover => (true, hs_fresh q M cap, [], next, cap)
+        | HDial => (run, s, backlog ++ [next], parks, (next + 1)%N, cap)
+        | HDialPark => (run, s, backlog ++ [next], parks ++ [next], (next + 1)%N, cap)
+        | HClose c => (run, if run && mem_N c (opened s) && negb (mem_N c parks) then lstep q s (LClose c) else s,
+                       backlog, parks, next, cap)
+        | HUnpark c => (run, if run && mem_N c infl then lstep q s (LClose c) else s, backlog, parks, next, cap)
+        | HReload n => (run, if run then lrun q s [LSetMax n; LRun 0] else s, backlog, parks, next, n)
+        | HRestart | HRestartIF | HRecover => (true, hs_fresh q M cap, [], parks, next, cap)
+        | HFail => (false, hs_close_all q s, [], parks, next, cap)
         end in
+      let blocked := match o with HRestartIF => negb skip && negb (is_nil infl) | _ => false end in
       let '(s2, backlog2) := if run1 then hs_settle q (List.length backlog1) s1 backlog1 else (s1, backlog1) in
       (if run1 then
          {| h_decoded := cap1; h_served := sortN (opened s2); h_waiting := Z.of_nat (List.length backlog2);
             h_cur := cur (ws s2); h_real := real s2; h_wq := map snd (wq (ws s2));
-            h_shr := count_who WAdj (wq (ws s2)); h_skip := skip; h_running := true |}
+            h_shr := count_who WAdj (wq (ws s2)); h_skip := skip; h_running := true;
+            h_old := 0; h_blocked := blocked |}
        else
          {| h_decoded := cap1; h_served := []; h_waiting := 0; h_cur := 0; h_real := 0; h_wq := [];
-            h_shr := 0; h_skip := skip; h_running := false |})
-      :: hs_model q M run1 s2 backlog2 next1 cap1 t
+            h_shr := 0; h_skip := skip; h_running := false; h_old := 0; h_blocked := blocked |})
+      :: hs_model q M idle_ok run1 s2 backlog2 parks1 next1 cap1 t
   end.
 
 (** property checker on observed steps; [cap] is the maxConnections written in the LAST YAML,
@@ -335,19 +357,21 @@ Fixpoint prop_hs_steps (M cap : Z) (prev : list N) (ops : list hop) (obs : list 
       let cap' := match o with HReload n => if h_skip st then cap else n | _ => cap end in
       let nserved := Z.of_nat (List.length (h_served st)) in
       let settled := h_shr st =? 0 in
-      let replaced := match o with HRestart | HFail | HRecover => negb (h_skip st) | _ => false end in
+      let replaced := match o with HRestart | HFail | HRecover | HRestartIF => negb (h_skip st) | _ => false end in
       (* the configured value is the one decoded ... *)
       (h_decoded st =? cap') &&
       (if h_running st then
          (* ... and the one in force in the listener, however it came to be (re)built *)
          (h_real st =? Z.min cap' M) &&
-         (* the cap on served, still open connections *)
-         (if settled then nserved <=? Z.min cap' M else true) &&
+         (* the cap on the connections being served: those of the listener in force TOGETHER with
+            those still open on a listener it replaced *)
+         (if settled then nserved + h_old st <=? Z.min cap' M else true) &&
          (* a waiting client is held back only while the cap is reached *)
-         (if settled && (0 <? h_waiting st) then Z.min cap' M <=? nserved else true) &&
-         (* no established connection is dropped by a hot reload (the harness itself ends all
-            connections before the listener is replaced) *)
-         (replaced || forallb (fun c => mem_N c (h_served st) || match o with HClose c' => N.eqb c c' | _ => false end) prev)
+         (if settled && (0 <? h_waiting st) then Z.min cap' M <=? nserved + h_old st else true) &&
+         (* no established connection is dropped by a hot reload or by another client's traffic
+            (a listener replacement ends the idle ones; requests in flight end with Unpark) *)
+         (replaced || forallb (fun c => mem_N c (h_served st) ||
+                                        match o with HClose c' | HUnpark c' => N.eqb c c' | _ => false end) prev)
        else true) &&
       prop_hs_steps M cap' (h_served st) ot bt
   | _, _ => false
@@ -356,20 +380,21 @@ Fixpoint prop_hs_steps (M cap : Z) (prev : list N) (ops : list hop) (obs : list 
 Definition hs_has (f : hop -> bool) (c : hs_case) : bool := existsb f (hc_ops c).
 
 Definition check_hs_with (pinned : quirks) (c : hs_case) : result :=
-  let model q := hs_model q (hc_M c) (negb (hc_busy c)) (hs_fresh q (hc_M c) (hc_init c)) [] 0%N (hc_init c) (hc_ops c) in
+  let model q := hs_model q (hc_M c) (hc_idle_ok c) (negb (hc_busy c)) (hs_fresh q (hc_M c) (hc_init c)) [] [] 0%N (hc_init c) (hc_ops c) in
   let ok := negb (hc_desync c) && negb (hc_bad c) in
   let corr := list_eqb hobs_eqb (model pinned) (hc_obs c) && ok in
   let prop := ok && prop_hs_steps (hc_M c) (hc_init c) [] (hc_ops c) (hc_obs c) in
   let waited := existsb (fun st => 0 <? h_waiting st) (hc_obs c) in
   let reloaded := hs_has (fun o => match o with HReload _ => true | _ => false end) c in
-  let replaced := hs_has (fun o => match o with HRestart | HFail | HRecover => true | _ => false end) c in
+  let replaced := hs_has (fun o => match o with HRestart | HFail | HRecover | HRestartIF => true | _ => false end) c in
+  let inflight := hs_has (fun o => match o with HRestartIF => true | _ => false end) c && existsb h_blocked (hc_obs c) in
   (corr, prop,
    if existsb (fun st => negb (is_nil (h_served st))) (hc_obs c)
-   then (1 + bN waited 1 + bN reloaded 2 + bN replaced 4 + bN (hc_busy c) 8)%N else 0%N,
+   then (1 + bN waited 1 + bN reloaded 2 + bN replaced 4 + bN (hc_busy c) 8 + bN inflight 16)%N else 0%N,
    if prop then 0%N else attribute pinned corr (fun q => prop_hs_steps (hc_M c) (hc_init c) [] (hc_ops c) (model q))).
 
 Definition explain_hs_with (pinned : quirks) (c : hs_case) :=
-  hs_model pinned (hc_M c) (negb (hc_busy c)) (hs_fresh pinned (hc_M c) (hc_init c)) [] 0%N (hc_init c) (hc_ops c).
+  hs_model pinned (hc_M c) (hc_idle_ok c) (negb (hc_busy c)) (hs_fresh pinned (hc_M c) (hc_init c)) [] [] 0%N (hc_init c) (hc_ops c).
 
 (** * group mq *)
 
